@@ -246,6 +246,21 @@ CHECKS = {
          "a class's own __getattr__ hook, instance-level functions carrying a hand-made mark, metaclass tricks.",
     technique="TLA+ spec + TLC; TLC-enumerated class shapes built as real classes and probed with raw wire requests; TLC trace validation",
     ref="6/C02"),
+ "C20": dict(
+    category="model_checking",
+    text="Gateway.tla models the gateway as a decision procedure over the request space (HTTP method x path shape x object-name class x "
+         "member x key configuration x key presented in header / $key x expose pattern x oneway option x query shape: 1 088 640 requests) "
+         "with Decide (refuse without traffic / preflight / index / forward) and Forward (what runs, status, body); TLC checks OnlyAuthorised "
+         "and InvokesOnlyNamed on all of them; Gen_Gateway.tla folds irrelevant fields and enumerates 10 454 distinguishable requests; each "
+         "is concretised as a WSGI environ and given to the real pyro_app in front of a real name-server object and real target objects in a "
+         "real daemon (in-memory transport); every Pyro message the gateway sends is counted and every execution of a target member is logged "
+         "with object, member, arguments and return value; status, body, traffic and executions are judged per request by TLC "
+         "(Trace_Gateway.tla).",
+    note="Trusted: the send counter on the gateway's sockets, the execution log in the target objects, JSON comparison of the body with the "
+         "value the logged execution returned, the in-memory transport, TLC. Accepted either way: header and $key disagreeing; OPTIONS "
+         "answering 200 (no traffic). Not generated: attribute reads with query parameters, blank parameter values, a name server that is down.",
+    technique="TLA+ spec + TLC; TLC-enumerated request space concretised into real WSGI calls against a real name server and daemon; TLC trace validation",
+    ref="6/C20"),
 }
 NOT_YET = {}
 ALL = ["C%02d" % i for i in range(1, 21)]
